@@ -74,3 +74,22 @@ prop("C15", level="other", runtime=True,
                   "numpy scalars and Python floats are both modelled as reals; the `total / finite` clause is only the shape obligation "
                   "`returns a list of one real` plus the bounded run-time check"],
      not_decided=["bound and optimum clauses of Schwefel, Michaelwicz (2/5/10), Schubert, GramacyLee, Perm, XinSheYang2, Synthetic1D/2D/5D/10D: bounded only"])
+prop("C03", level="proof", runtime=True,
+     assumptions=["sorted(key=cmp_to_key(f)) returns an ordered permutation when f is a total preorder on the elements "
+                  "(the three order lemmas ncmp_* are proved; the library sort is trusted)",
+                  "list(set(xs)) is modelled as a duplicate-free selection of xs under Individual.__eq__/__hash__ (C20) in which "
+                  "every member of xs is represented",
+                  "A1: crowding-distance arithmetic over the extended reals; float division is an uninterpreted function with "
+                  "0 <= x/y <= 1 for 0 <= x <= y, y > 0",
+                  "random.sample(xs, 2) returns two members at different positions"],
+     not_decided=["the call sites in NSGAII.run that rank the pool (fast_nondominated_sorting, see C02) before truncating it"])
+prop("C02", level="exploration", runtime=True,
+     explanation="The sorter (three nested loop phases over feature dictionaries and id lists) is NOT proved: the staged invariant "
+                 "proof planned in DESIGN.md was not discharged. Its complete specification (front 1 = exactly the non-dominated "
+                 "members; every member of front k>1 has all dominators in earlier fronts and one in front k-1; nobody unranked) is "
+                 "evaluated at run time on the real function over every sequence of n<=3 (quick) / n<=4 (thorough) points of a 3x3 "
+                 "grid, i.e. all order types and all input orders of that size, plus random larger populations: bounded. Proved "
+                 "deductively: the id lookup Selector.individual, crowding_distance (called once per front) and three consequences "
+                 "of the specification (lemmas).",
+     assumptions=["dominance verdicts come from the comparator proved in C01"],
+     not_decided=["fast_nondominated_sorting for populations larger than the explored bound"])
